@@ -24,7 +24,7 @@ ASSUMPTIONS = [
 ]
 MIN_DECIDING = {"accumulation_checked": 100, "records_checked": 500, "ignored_edit_commands": 100, "differential_dirhash": 30}
 
-NAMES = ["Thumbs.db", "skipme", "cache"]
+NAMES = ["Thumbs.db", "skipme", "cache", "scratch notes.txt", "Day 1 temp"]
 GLOBS = ["*.tmp", "?x.dat", "[ab]*", "*~", "*.b?k"]
 
 
@@ -44,7 +44,7 @@ def run_case(cs):
     rng = cs.rng
     tree = world.gen_tree(rng, max_files=rng.choice([3, 7]), max_dirs=rng.choice([1, 3, 5]), classes=["plain", "plain", "space", "uni"])
     dirs = [""] + [k for k, v in tree.items() if v is None]
-    for n in rng.sample(["a.tmp", "keep.tmp2", "ax.dat", "bfile", "Thumbs.db", "x~", ".DS_Store", "y.bak", "y.bxk", "zx.dat"], rng.randint(2, 6)):
+    for n in rng.sample(["a.tmp", "keep.tmp2", "ax.dat", "bfile", "Thumbs.db", "x~", ".DS_Store", "y.bak", "y.bxk", "zx.dat", "scratch notes.txt", "notes.txt", "scratch", "Day 1 temp", "temp"], rng.randint(2, 7)):
         par = rng.choice(dirs)
         tree[(par + "/" if par else "") + n] = world.gen_bytes(rng, rng.randint(1, 9))
     for dn in rng.sample(["skipme", "cache", "adir"], rng.randint(0, 2)):
@@ -56,7 +56,7 @@ def run_case(cs):
             tree[base + "/deep"] = None
             tree[base + "/deep/x"] = b"x"
     d = cs.dir()
-    root = os.path.join(d, "R")
+    root = os.path.join(d, world.root_name(rng))
     world.write_tree(root, tree)
     subdirs = sorted(k for k, v in tree.items() if v is None)
     # gitwildmatch strips unescaped leading/trailing blanks and gives # ! \\ [ ] * ? a meaning: only plain names become patterns
@@ -89,7 +89,7 @@ def run_case(cs):
         filep = []
         extra = [x for p in cli for x in ("-i", p)]
         if rng.random() < 0.25:
-            filep = rng.sample(pool + ["*.log", "render?"], rng.randint(1, 3))
+            filep = rng.sample(pool + ["*.log", "render?", "scratch notes.txt", "Day 1 temp", "* copy.*"], rng.randint(1, 3))
             pf = os.path.join(d, "pat%d.txt" % g)
             with open(pf, "w") as f:
                 f.write("\n".join(filep) + ("\n" if rng.random() < 0.7 else "") + ("\n" if rng.random() < 0.2 else ""))
